@@ -26,7 +26,9 @@ def _record(rs):
     from sim.kernel import substream
 
     r = substream(rs, "c18cfg")
-    d = worlds.record_session(rs, {"configs": r.random() < 0.4, "par": r.random() < 0.2, "max_ops": r.choice([4, 7, 10]), "min_ops": 3})
+    d = worlds.record_session(rs, {"configs": r.random() < 0.4, "par": r.random() < 0.2, "max_ops": r.choice([4, 7, 10]), "min_ops": 3,
+                                   "weights": {"inline": 5, "inline_window": 4, "simplify": 5, "replace": 3, "divide_loop": 3, "extract_subproc": 3,
+                                               "unroll_buffer": 3, "set_memory": 2, "bind_expr": 2, "stage_mem": 2}})
     return {"data": d, "digest": "rec"}
 
 
@@ -36,6 +38,7 @@ def mk_world(r, hs_idx):
     return {
         "salt": r.getrandbits(48) if r.random() < 0.8 else None,
         "sym_offset": r.choice([0, 1, 17, 1000, 54321]),
+        "sym_align": r.choice([0, 0, 3, 8, 15, 25, 40, 70]),
         "prefix": r.choice(worlds.PREFIX_KINDS),
         "n_prefix": r.choice([1, 2, 3]),
         "seed": r.getrandbits(30),
